@@ -81,6 +81,38 @@ NOTES = {
     "C20-M4": ("threshold check on the non-object path skipped when the nursery is empty", "a phase that allocates only raw buffers (fibers) and no object"),
     "C20-M5": ("vector handle size() uses len instead of cap", "lists allocated with capacity much larger than length (collected with a size hint)"),
     "C20-M6": ("cached old-generation size updated with += promoted after a full sweep", "objects promoted, dead, released by a full collection, followed by nursery collections"),
+    # ---- third round (worktrees /tmp/wt3_<P>), stored as M7..M9
+    "C04-M7": ("pause_unwind re-captures the top frames' instruction pointers on the second pause of one unwind", "a catch clause whose filter rejects the error followed by a matching handler in a shallower call frame"),
+    "C04-M8": ("stack depth walk no longer records the depth at a catch label", "a try ending in break/continue inside a loop with >= 2 body locals, the catch clause holding the deepest expression, in the root function of a launched fiber (exactly sized stack)"),
+    "C04-M9": ("is_subclass compares interned class names instead of class identity", "two distinct Error subclasses with the same name (two modules, or a local class shadowing a module one) meeting at a catch filter"),
+    "C07-M7": ("close() drops the buffered values when receivers are registered", "a buffered channel holding values, a registered receive waiter, then close()"),
+    "C07-M8": ("get_runnable folds eagerly and pops a waiter of every used channel", "a completing or parking fiber that used >= 2 channels which each have a runnable waiter"),
+    "C07-M9": ("complete() no longer clears the waiter's runnable flag", "a completed fiber with a leftover waiter registration on a channel that is scanned later"),
+    "C08-M7": ("close() clears the send waiter list", "senders sleeping on a channel when another fiber closes it"),
+    "C08-M8": ("run queue served last-in first-out", "two fibers that keep waking each other while a third one is queued (starvation, then a hang or a spurious deadlock)"),
+    "C08-M9": ("a refused wake-up of an importing/pending parent erases its pending state", "a parent waiting for a child while a second child completes first"),
+    "C09-M7": ("intern table looked up with a helper hash that differs from the table's own hasher", "more than about 7000 strings interned so that the table grows and re-buckets, then an equal string created afterwards"),
+    "C09-M8": ("intern key of long strings compares only a sample of the text", "two different strings of equal length > 128 bytes that differ only in the middle"),
+    "C09-M9": ("compiler roots only walk one level of enclosing compilers", "a collection during compilation of a doubly nested function in an imported module, module-level constants otherwise unreferenced"),
+    "C10-M7": ("sort returns its receiver for lists of 0 or 1 elements", "sort on a list with at most one element whose result is compared with or mutated besides the receiver"),
+    "C10-M8": ("the map iterator recycles the [key, value] list it hands out", "a map with >= 2 entries and an entry kept after the iterator advances"),
+    "C10-M9": ("a map no longer traces its keys", "a key object referenced only by the map, a collection, then a same-size allocation and a lookup or a walk"),
+    "C13-M7": ("an invoke cache hit skips the arity check", "a cached call site that is reached again with a wrong argument count"),
+    "C13-M8": ("inline cache capped at 256 slots, indexes taken modulo", "a module with more than 256 property or invoke sites"),
+    "C13-M9": ("super-invoke sites treated as monomorphic", "a class factory: one super site executed for instances of classes with different superclasses"),
+    "C14-M7": ("list growth rounded to whole pages, so capacity depends on size_of::<Value>()", "a list of >= 256 elements grown through an alias, a second non-stack reference, then an identity check"),
+    "C14-M8": ("boxing a number adds 0.0", "a negative zero whose sign is observed (printing, 1/x) in the NaN-boxed build"),
+    "C14-M9": ("enum PartialEq drops the Undefined arm", "a run-time read of a module variable that is declared but not initialised yet (file mode, late-bound global)"),
+    "C17-M7": ("module attached to the package tree before its file is read", "a failed import that the session survives (prompt), then a second import of the same path"),
+    "C17-M8": ("finishing module fiber skips waking the importer when it also woke a channel waiter", "a module body that uses a channel with a runnable waiter still parked on it when the body ends"),
+    "C17-M9": ("export snapshots the value at the export statement", "export let x = placeholder, then a reassignment of x by the module, then any import reading it"),
+    "C19-M7": ("script end detected by 'fiber has no parent' instead of 'is the main fiber'", "prompt: a line abandoned with its fiber parked on a channel, a later line sending to that channel with work left"),
+    "C19-M8": ("stale waiter guard compares with the current fiber instead of is_running()", "prompt: a returned entry's fiber with a leftover registration on a channel whose waiters are scanned later"),
+    "C19-M9": ("the Exit instruction completes the top-level fiber and drops the waiter complete() returns", "prompt: two fibers of earlier lines parked on one channel and a line that sends once and closes"),
+    "C20-M7": ("a fiber deduplicates only against its last 8 used channels", "a long-lived fiber cycling through more than 8 channels"),
+    "C20-M8": ("strings longer than 4096 bytes bypass the intern table", "the same text > 4096 bytes produced twice while both are live"),
+    "C20-M9": ("objects of >= 4096 bytes allocated straight into the old generation", "short-lived large objects produced in volume between full collections"),
+    "C20-M10": ("collection threshold computed before the non-object heap is swept", "raw buffers outweighing objects after a collection (deep call stack or hundreds of parked fibers)"),
 }
 
 
@@ -88,9 +120,11 @@ def parse_eval(path):
     results = {}
     current = None
     for line in open(path):
-        match = re.match(r"== (C\d+) MUTANT(\d)", line)
+        match = re.match(r"== (C\d+) (?:(wt\d?) )?MUTANT(\d|_EXTRA)", line)
         if match:
-            current = "%s-M%s" % (match.group(1), match.group(2))
+            offset = {None: 0, "wt": 0, "wt2": 3, "wt3": 6}[match.group(2)]
+            number = 4 if match.group(3) == "_EXTRA" else int(match.group(3))
+            current = "%s-M%d" % (match.group(1), offset + number)
             results[current] = []
         elif current and (re.match(r"C\d+ exit=", line) or line.startswith("NOTE")):
             results[current].append(line.strip()[:700])
@@ -106,10 +140,12 @@ def main():
                 evals[key] = lines
     os.makedirs(SEEDED, exist_ok=True)
     rows = []
+    rounds = [("wt", 0, "/tmp/confirm"), ("wt2", 3, "/tmp/confirm2"), ("wt3", 6, "/tmp/confirm3")]
     for prop in ["C04", "C05", "C07", "C08", "C09", "C10", "C13", "C14", "C17", "C19", "C20"]:
-        for n in (1, 2, 3):
-            source = "/tmp/wt_%s/MUTANT%d" % (prop, n)
-            key = "%s-M%d" % (prop, n)
+      for prefix, offset, confirm_dir in rounds:
+        for n, dirname in ((1, "MUTANT1"), (2, "MUTANT2"), (3, "MUTANT3"), (4, "MUTANT_EXTRA")):
+            source = "/tmp/%s_%s/%s" % (prefix, prop, dirname)
+            key = "%s-M%d" % (prop, offset + n)
             if not os.path.exists(os.path.join(source, "patch.diff")):
                 continue
             target = os.path.join(SEEDED, key)
@@ -120,7 +156,7 @@ def main():
                 if os.path.isfile(path) and os.path.getsize(path) < 200000:
                     shutil.copy(path, os.path.join(target, name))
             confirm = {}
-            confirm_path = "/tmp/confirm/%s_M%d.json" % (prop, n)
+            confirm_path = "%s/%s_M%d.json" % (confirm_dir, prop, n)
             if os.path.exists(confirm_path):
                 try:
                     text = open(confirm_path).read()
@@ -129,6 +165,7 @@ def main():
                     confirm = {"error": "unparsable confirmation output"}
             lines = evals.get(key, [])
             caught = [line for line in lines if re.search(r"exit=1 violations=[1-9]", line)]
+            caught_by = sorted(set(line.split()[0] for line in caught))
             mechanism, needs = NOTES.get(key, ("", ""))
             meta = {
                 "id": key,
@@ -136,7 +173,7 @@ def main():
                 "written_by": "independent sub-agent that saw only the property text and its own scratch worktree",
                 "mechanism": mechanism,
                 "needs_to_manifest": needs,
-                "base_commit": "b751187 (a later repair conflicts)" if any("NOTE" in line for line in lines) else "applies to /repo HEAD",
+                "base_commit": "the commit it was written against (a later repair touches the same lines)" if any("NOTE" in line for line in lines) else "applies to /repo HEAD",
                 "independent_confirmation": {
                     "patch_applies": confirm.get("patch_applies"),
                     "builds": confirm.get("builds"),
@@ -145,11 +182,12 @@ def main():
                     "demonstration_discriminates": confirm.get("demo_discriminates"),
                     "clean_tree": confirm.get("clean_tree"),
                     "with_patch": confirm.get("with_patch"),
-                    "command": "tools/confirm_mutant.py /tmp/wt_%s /tmp/wt_%s/MUTANT%d" % (prop, prop, n),
+                    "command": "tools/confirm_mutant.py /tmp/%s_%s %s" % (prefix, prop, source),
                 },
-                "checks_run": ["tools/eval_mutant.py /tmp/wt_%s <patch> %s   (quick tier, VERIF_SEED=1)" % (prop, prop)],
+                "checks_run": ["tools/eval_mutant.py /tmp/%s_%s <patch> <check>   (quick tier unless the result line says otherwise, VERIF_SEED=1)" % (prefix, prop)],
                 "results": lines,
                 "caught": bool(caught),
+                "caught_by": caught_by,
             }
             with open(os.path.join(target, "meta.json"), "w") as handle:
                 json.dump(meta, handle, indent=1)
@@ -158,13 +196,13 @@ def main():
             if caught:
                 found = re.search(r"\[(.*?)\] \|", caught[0])
                 clauses = found.group(1)[:160] if found else ""
-            rows.append((key, mechanism, "caught by %s quick: %s" % (prop, clauses) if caught else "NOT caught by the quick tier",
+            rows.append((key, mechanism, "caught by %s: %s" % (", ".join(caught_by), clauses) if caught else "NOT caught",
                          "yes" if confirm.get("suite_only_baseline_failures") and confirm.get("demo_discriminates") else str(confirm.get("suite_only_baseline_failures")) + "/" + str(confirm.get("demo_discriminates"))))
     with open(os.path.join(SEEDED, "README.md"), "w") as handle:
         handle.write("# Seeded property-breaking changes\n\nEach directory holds a change written by an independent sub-agent (it saw one property's text and a scratch "
                      "worktree, nothing from /verif): `patch.diff`, its demonstration, its own README and `meta.json`. Every change compiles and "
                      "passes the pinned suite; every demonstration passes on the clean tree and fails with the change (re-confirmed with "
-                     "`tools/confirm_mutant.py`). Results are for the quick tier at `VERIF_SEED=1`, evaluated with `tools/eval_mutant.py` on top of "
+                     "`tools/confirm_mutant.py`). Results are for the quick tier at `VERIF_SEED=1` (a result line names the tier when it is another one), evaluated with `tools/eval_mutant.py` on top of "
                      "the repaired `/repo` HEAD (or on the commit the change was written against when a later repair touches the same lines).\n\n")
         handle.write("| id | mechanism | result | suite green + demo discriminates (re-confirmed) |\n|---|---|---|---|\n")
         for row in rows:
